@@ -1,9 +1,256 @@
-//! c11 -- placeholder; implemented by the owning property module.
+//! c11 -- memory-bus property: drive `MemoryImage` (direct API) and `CoreRuntime::step` (CPU-facing
+//! RuntimeBus) through configuration steps and batched access histories.
+//!
+//! The harness owns no memory semantics: every configuration step and every operation is one call of the
+//! crate's public API; the reference model and all verdicts live on the Python side
+//! (vp_harness/c11_model.py).  Pattern data (ROM images, card images, RAM fill) is generated from a tiny
+//! arithmetic formula that the Python side implements identically (`pat`).
+//!
+//! request : {"cmd":"c11.run","cases":[{"mode":"direct"|"cpu","cfg":[step..],"sent":[addr..],"ops":[op..]}]}
+//!   step  : ["mirror",bool] | ["fill",k] | ["slice",start,len,k] | ["pce500_map"] | ["rom_window",len,k]
+//!           | ["ro",[[s,e]..]] | ["card",size,k] | ["slot",bool] | ["ram_ovl",start,size,name]
+//!           | ["rom_ovl",start,size,k,name]
+//!   op    : ["st",addr,bits,value,[probe..]] | ["ld",addr,bits,[probe..]]                 (direct + cpu*)
+//!           | ["x",code_addr,[byte..],{reg:value..},ret_reg|null,[probe..]]               (cpu only)
+//!           (*in cpu mode "st"/"ld" go straight to rt.memory: used for set-up and observation)
+//! response: {"ok":true,"results":[{"ops":[[ret,[sentinel values..,probe values..]]..]} | {"error":..}]}
+//!   ret = loaded value / register value, -1 when the API returned None, -2 when step() returned Err.
+use crate::util::err;
+use sc62015_core::memory::MemoryImage;
+use sc62015_core::pce500::{
+    configure_pce500_memory_map, load_pce500_rom_window, load_pce500_rom_window_into_memory,
+};
+use sc62015_core::CoreRuntime;
 use serde_json::{json, Value};
 
 #[derive(Default)]
 pub struct State {}
 
-pub fn handle(verb: &str, _req: &Value, _st: &mut State) -> Value {
-    json!({"ok": false, "error": format!("c11.{verb} not implemented")})
+pub fn pat(k: u32, i: u32) -> u8 {
+    (i.wrapping_mul(131)
+        .wrapping_add((i >> 8).wrapping_mul(29))
+        .wrapping_add((i >> 16).wrapping_mul(7))
+        .wrapping_add(k.wrapping_mul(53))
+        .wrapping_add(1)
+        & 0xFF) as u8
+}
+
+fn pat_vec(k: u32, base: u32, len: usize) -> Vec<u8> {
+    (0..len as u32).map(|i| pat(k, base.wrapping_add(i))).collect()
+}
+
+fn u(v: &Value) -> u64 {
+    v.as_u64().unwrap_or(0)
+}
+
+enum Target {
+    Direct(Box<MemoryImage>),
+    Cpu(Box<CoreRuntime>),
+}
+
+impl Target {
+    fn mem(&mut self) -> &mut MemoryImage {
+        match self {
+            Target::Direct(m) => m,
+            Target::Cpu(rt) => &mut rt.memory,
+        }
+    }
+}
+
+fn apply_step(t: &mut Target, step: &Value) -> Result<(), String> {
+    let a = step.as_array().ok_or("cfg step must be an array")?;
+    let name = a.first().and_then(|v| v.as_str()).unwrap_or("");
+    match name {
+        "mirror" => t.mem().set_internal_ram_mirror(a[1].as_bool().unwrap_or(false)),
+        "fill" => {
+            let blob = pat_vec(u(&a[1]) as u32, 0, 0x100000);
+            t.mem().load_external(&blob);
+        }
+        "slice" => {
+            let start = u(&a[1]) as usize;
+            let data = pat_vec(u(&a[3]) as u32, start as u32, u(&a[2]) as usize);
+            match t {
+                Target::Direct(m) => m.write_external_slice(start, &data),
+                Target::Cpu(rt) => rt.load_rom(&data, start),
+            }
+        }
+        "pce500_map" => configure_pce500_memory_map(t.mem()),
+        "rom_window" => {
+            // image of `len` bytes whose last 256 KiB land at 0xC0000 (pattern indexed by final address)
+            let len = u(&a[1]) as usize;
+            let base = 0x100000u32.wrapping_sub(len as u32);
+            let data = pat_vec(u(&a[2]) as u32, base, len);
+            match t {
+                Target::Direct(m) => {
+                    load_pce500_rom_window_into_memory(m, &data);
+                    configure_pce500_memory_map(m);
+                }
+                Target::Cpu(rt) => load_pce500_rom_window(rt, &data).map_err(|e| e.to_string())?,
+            }
+        }
+        "ro" => {
+            let ranges: Vec<(u32, u32)> = a[1]
+                .as_array()
+                .map(|l| {
+                    l.iter()
+                        .map(|r| (u(&r[0]) as u32, u(&r[1]) as u32))
+                        .collect()
+                })
+                .unwrap_or_default();
+            t.mem().set_readonly_ranges(ranges);
+        }
+        "card" => {
+            let data = pat_vec(u(&a[2]) as u32, 0x40000, u(&a[1]) as usize);
+            match t {
+                Target::Direct(m) => m.load_memory_card(&data).map_err(|e| e.to_string())?,
+                Target::Cpu(rt) => rt.load_memory_card(&data).map_err(|e| e.to_string())?,
+            }
+        }
+        "slot" => t
+            .mem()
+            .set_memory_card_slot_present(a[1].as_bool().unwrap_or(true)),
+        "ram_ovl" => {
+            let (start, size) = (u(&a[1]) as u32, u(&a[2]) as usize);
+            let nm = a[3].as_str().unwrap_or("ram");
+            match t {
+                Target::Direct(m) => m.add_ram_overlay(start, size, nm),
+                Target::Cpu(rt) => rt.add_ram_overlay(start, size, nm),
+            }
+        }
+        "rom_ovl" => {
+            let start = u(&a[1]) as u32;
+            let data = pat_vec(u(&a[3]) as u32, start, u(&a[2]) as usize);
+            let nm = a[4].as_str().unwrap_or("rom");
+            match t {
+                Target::Direct(m) => m.add_rom_overlay(start, &data, nm),
+                Target::Cpu(rt) => rt.add_rom_overlay(start, &data, nm),
+            }
+        }
+        other => return Err(format!("unknown cfg step {other}")),
+    }
+    Ok(())
+}
+
+fn probes(t: &mut Target, sent: &[u32], extra: Option<&Value>) -> Value {
+    let mem = t.mem();
+    let mut out: Vec<i64> = Vec::with_capacity(sent.len() + 24);
+    for p in sent {
+        out.push(mem.load(*p, 8).map(|v| v as i64).unwrap_or(-1));
+    }
+    if let Some(list) = extra.and_then(|v| v.as_array()) {
+        for p in list {
+            out.push(mem.load(u(p) as u32, 8).map(|v| v as i64).unwrap_or(-1));
+        }
+    }
+    json!(out)
+}
+
+fn run_case(case: &Value) -> Value {
+    let mode = case.get("mode").and_then(|v| v.as_str()).unwrap_or("direct");
+    let mut t = if mode == "cpu" {
+        Target::Cpu(Box::new(CoreRuntime::new()))
+    } else {
+        Target::Direct(Box::new(MemoryImage::new()))
+    };
+    if let Some(steps) = case.get("cfg").and_then(|v| v.as_array()) {
+        for s in steps {
+            if let Err(e) = apply_step(&mut t, s) {
+                return json!({"error": format!("cfg: {e}")});
+            }
+        }
+    }
+    let sent: Vec<u32> = case
+        .get("sent")
+        .and_then(|v| v.as_array())
+        .map(|l| l.iter().map(|x| u(x) as u32).collect())
+        .unwrap_or_default();
+    let mut results: Vec<Value> = Vec::new();
+    let empty = Vec::new();
+    let ops = case.get("ops").and_then(|v| v.as_array()).unwrap_or(&empty);
+    for op in ops {
+        let a = match op.as_array() {
+            Some(a) => a,
+            None => return json!({"error": "op must be an array"}),
+        };
+        let kind = a.first().and_then(|v| v.as_str()).unwrap_or("");
+        let (ret, extra): (i64, Option<&Value>) = match kind {
+            "st" => {
+                let r = t
+                    .mem()
+                    .store(u(&a[1]) as u32, u(&a[2]) as u8, u(&a[3]) as u32);
+                (if r.is_some() { 0 } else { -1 }, a.get(4))
+            }
+            "ld" => {
+                let r = t.mem().load(u(&a[1]) as u32, u(&a[2]) as u8);
+                (r.map(|v| v as i64).unwrap_or(-1), a.get(3))
+            }
+            "x" => match &mut t {
+                Target::Cpu(rt) => {
+                    let code_addr = u(&a[1]) as usize;
+                    let code: Vec<u8> = a[2]
+                        .as_array()
+                        .map(|l| l.iter().map(|b| u(b) as u8).collect())
+                        .unwrap_or_default();
+                    rt.memory.write_external_slice(code_addr, &code);
+                    if let Some(regs) = a[3].as_object() {
+                        for (name, val) in regs {
+                            rt.set_reg(name, u(val) as u32);
+                        }
+                    }
+                    rt.set_reg("PC", code_addr as u32);
+                    let r = match rt.step(1) {
+                        Ok(()) => match a[4].as_str() {
+                            Some(rn) => rt.get_reg(rn) as i64,
+                            None => 0,
+                        },
+                        Err(_) => -2,
+                    };
+                    (r, a.get(5))
+                }
+                Target::Direct(_) => return json!({"error": "op x needs mode cpu"}),
+            },
+            other => return json!({"error": format!("unknown op {other}")}),
+        };
+        let pv = probes(&mut t, &sent, extra);
+        results.push(json!([ret, pv]));
+    }
+    json!({"ops": results})
+}
+
+pub fn handle(verb: &str, req: &Value, _st: &mut State) -> Value {
+    match verb {
+        "run" => {
+            let empty = Vec::new();
+            let cases = req.get("cases").and_then(|v| v.as_array()).unwrap_or(&empty);
+            let results: Vec<Value> = cases
+                .iter()
+                .map(|c| {
+                    match std::panic::catch_unwind(std::panic::AssertUnwindSafe(|| run_case(c))) {
+                        Ok(v) => v,
+                        Err(e) => {
+                            let msg = if let Some(s) = e.downcast_ref::<&str>() {
+                                s.to_string()
+                            } else if let Some(s) = e.downcast_ref::<String>() {
+                                s.clone()
+                            } else {
+                                "panic".to_string()
+                            };
+                            json!({"panic": msg})
+                        }
+                    }
+                })
+                .collect();
+            json!({"ok": true, "results": results})
+        }
+        "pat" => {
+            let k = req.get("k").map(u).unwrap_or(0) as u32;
+            let vals: Vec<u8> = req
+                .get("idx")
+                .and_then(|v| v.as_array())
+                .map(|l| l.iter().map(|i| pat(k, u(i) as u32)).collect())
+                .unwrap_or_default();
+            json!({"ok": true, "values": vals})
+        }
+        _ => err(format!("unknown c11 verb {verb}")),
+    }
 }
